@@ -141,11 +141,12 @@ def pseudoKey : Nat := 0
 def argOf (k : Nat) (t : TyS) : Arg := ⟨k, t.cond, t.vec, t.ty⟩
 
 /-- `bin(result.get('mode', result.get('flags'))).replace('0b', '')[::-1]`: the value stored under `mode`, else under `flags`
-(`bin(None)` raises); only ints are in the modelled domain (`bin(True)` of a `Bool` field named `mode` = raises, as in the hand model). -/
+(`bin(None)`, `bin('..')` raise; a `bool` is an int: `bin(True)` = `'0b1'`). -/
 def maskOf? (T : Table) : Val → Option (List Nat)
   | .obj _ fs =>
     match (match fs.lookup T.modeKey with | some v => some v | none => fs.lookup T.flagsKey) with
     | some (.int m) => some (binRev m)
+    | some (.bool b) => some (binRev (if b then 1 else 0))
     | _ => none
   | _ => none
 
@@ -167,5 +168,17 @@ def dictAppend? : Val → Nat → Val → Option Val
     | some (.list vs) => some (.obj ty (setField fs k (.list (vs ++ [x]))))
     | _ => none
   | _, _, _ => none
+
+/-! ### block.py: the dict form of a block id (str keys as numbers) -/
+
+def kWorkchain : Nat := 0
+def kShard : Nat := 1
+def kSeqno : Nat := 2
+def kRootHash : Nat := 3
+def kFileHash : Nat := 4
+/-- a value stored in an attribute declared `int` (anything else builds an object outside the modelled domain = none) -/
+def asInt? : Val → Option Int | .int i => some i | _ => none
+/-- a value stored in an attribute declared `bytes` -/
+def asBytes? : Val → Option Bytes | .bytes b => some b | _ => none
 
 end TonVerif.Py.Tl
